@@ -20,7 +20,8 @@ connection-handler loop, and every path from loop exit to return removes (own id
 from_quinn_error(close reason)) and then shuts the request tasks down; from_quinn_error maps each
 ConnectionError variant to the like-named reason (CidsExhausted ↦ TransportError), exhaustively;
 (4) the configured idle timeout and keep-alive reach quinn's TransportConfig unchanged and that
-config is installed on both the client and the server side.
+config is installed on both the client and the server side; (5) a connection this side replaces or rejects in the
+tie-break is closed explicitly by this side (C04.2a re-evaluated), so the other side observes the loss.
 """
 TRUSTED = ["quinn closes a connection whose last handle is dropped and reports closes/idle timeouts to the peer", "std HashMap/RwLock"]
 NOT_DECIDED = ["eventual mutual views / reachability after fault-free periods (liveness over fault schedules)", "detection latency ('no later than the idle timeout')",
